@@ -421,5 +421,3 @@ def run(ctx):
 
     # cells and rows of 16 MiB and more are split by the framer: the framing clauses (C04's rules) are part of
     # `arrives unchanged` for the size classes this property quantifies over
-    import rules._wire as W_
-    W_.run_outbound(ctx)
